@@ -104,3 +104,7 @@ def check(repo: Repo, rep: Report) -> None:
            "distinct_until_changed replaces the remembered key on a path that does not emit (or emits without remembering): "
            "elements are compared with the previous *input* instead of the last *emitted* element -- with a comparer that is "
            "not transitive (tolerance) a slowly drifting sequence is never emitted")
+    TC.pipelines_exact(repo, rep, "K4-composites", {
+        ("reactivex/operators/_map.py", "map_indexed_"): [["zip_with_iterable", "starmap_indexed"]],
+        ("reactivex/operators/_skipwhile.py", "skip_while_indexed_"): [["map_indexed", "skip_while", "map"]],
+    })
